@@ -603,6 +603,25 @@ def component_rules(P, R, K, tab):
         else:
             R.violation("C14.components", inst, "%s does not mark the component list stale (UpdateComponents = true) on every normal path" % q,
                         file=f["file"], line=f["line"], function=f["q"])
+    # sources that do not depend on amounts: a phase of an assemblage may hold 0 mol (and a phase with an alternative formula is skipped by
+    # totalize), a REACTION has no amounts at all - their elements come from the formula lists, not from amount-weighted totals
+    lcs = [g for g in P.fns_named("Phreeqc::list_components") if g.get("body")]
+    if lcs:
+        g = lcs[0]
+        for store, getter, what in (("Phreeqc::Rxn_pp_assemblage_map", "Get_eltList", "pure-phase assemblages"), ("Phreeqc::Rxn_reaction_map", "Get_elementList", "REACTION")):
+            blks = [x for x in T.walk(g["body"]) if x[0] in ("For",) and any(y[0] == "Member" and y[2] == store for y in T.walk(x))]
+            inst = "list_components:%s" % store.split("Rxn_")[-1].replace("_map", "")
+            if not blks:
+                R.anchor_missing("C14.components", "list_components: loop over %s not found" % store)
+                continue
+            adds = [c for c in T.calls(blks[0]) if T.callee_name(c) == "add_extensive" and c[4]]
+            src = [T.callee_name(cc) for a in adds for cc in T.calls(a[4][0])]
+            if getter in src:
+                R.ok("C14.components", inst, "elements from %s (independent of amounts)" % getter)
+            else:
+                R.violation("C14.components", inst, "the elements of %s are taken from `%s`, amount-weighted totals, instead of %s: a phase at 0 mol or with an alternative formula "
+                            "contributes no element names and its elements are missing from the component list" % (what, ", ".join(src) or "?", getter),
+                            file=g["file"], line=blks[0][1], function=g["q"])
     lc = P.fns_named("IPhreeqc::ListComponents")
     if not lc:
         R.anchor_missing("C14.components", "IPhreeqc::ListComponents not found")
